@@ -17,7 +17,8 @@ RULE = ("exhaustive: all 64000 code triples as '.rad50 /abc/' in upper and in lo
         "every code point (quick: the BMP, thorough: all 0x110000) as a one-character '.rad50' string; every BMP code point "
         "after '^R' (quick: ASCII, every character related by upper/lower/casefold to the alphabet, and a seeded sample); "
         "<n> for n in -3..63 and large values, alone and inside strings; generated operands of 0-12 characters in 1-4 chunks "
-        "mixing both cases, <n>, ASCII outside the alphabet and non-ASCII characters; '^R' with 0-6 characters. "
+        "mixing both cases, <n>, ASCII outside the alphabet and non-ASCII characters; the same operands with every character spelled each way a string allows "
+        "(plain, \\xhh with lower/upper/mixed-case digits and \\X, \\n \\r \\t, escaped quote/backslash/slash, backslash-newline), every alphabet character and every byte value as a lone hex escape; '^R' with 0-6 characters. "
         "non-trivial = a distinct (form, text) whose result is a packed word list or an error; the exhaustive parts count one per triple / code point")
 LEVEL_TEXT = ("Coq theorems over the TABLE regenerated from radix50.py on every run: TABLE is the DEC alphabet (40 distinct characters); "
               "unpack inverts the packing weights (lia over unbounded Z); '.rad50' on operands of ANY length over the alphabet in either case "
@@ -53,6 +54,78 @@ def render_chunks(chunks):
     for kind, v in chunks:
         out.append(render_str(v) if kind == "s" else "<%s>" % (("%d." % v) if v >= 0 else ("-%d." % -v)))
     return " ".join(out)
+
+
+def hex_escape(c, style):
+    """one of the spellings of chr(c), c < 256, as a hexadecimal escape"""
+    h = "%02x" % c
+    if style == 1:
+        h = h.upper()
+    elif style == 2:
+        h = h[0].upper() + h[1].lower()
+    elif style == 3:
+        h = h[0].lower() + h[1].upper()
+    return ("\\X" if style >= 4 else "\\x") + (h.upper() if style == 5 else h)
+
+
+NAMED = {"\n": "n", "\r": "r", "\t": "t"}
+
+
+def spell_str(s, rng, p_hex=0.5):
+    """source text of a quoted string denoting s, each character written in one of the ways parser.string_escape allows:
+    plain; \\xhh with lower / upper / mixed case digits, \\X; \\n \\r \\t (either case); \\\\ \\" \\' \\/;
+    and backslash-newline (which denotes nothing) sprinkled between characters"""
+    q = rng.choice('/"\'')
+    out = []
+    for ch in s:
+        r = rng.random()
+        c = ord(ch)
+        if c < 256 and r < p_hex:
+            out.append(hex_escape(c, rng.randrange(6)))
+        elif ch in NAMED and r < 0.8:
+            out.append("\\" + (NAMED[ch].upper() if rng.random() < 0.5 else NAMED[ch]))
+        elif ch in "\\\"'/" and (ch == q or ch == "\\" or r < 0.8):
+            out.append("\\" + ch)
+        elif c < 256 and (ch == q or ch == "\\"):
+            out.append(hex_escape(c, rng.randrange(6)))
+        else:
+            out.append(ch)
+        if rng.random() < 0.05:
+            out.append("\\\n")
+    return q + "".join(out) + q
+
+
+def spell_chunks(chunks, rng):
+    out = []
+    for kind, v in chunks:
+        out.append(spell_str(v, rng) if kind == "s" else "<%s>" % (("%d." % v) if v >= 0 else ("-%d." % -v)))
+    return rng.choice([" ", "", "\t"]).join(out)
+
+
+def escape_cases(rng, n):
+    """(chunks, source): '.rad50' operands whose characters are spelled through escapes"""
+    both = ALPHA + ALPHA.lower()
+    out = []
+    # every alphabet character in either case, alone, in each hexadecimal spelling
+    for ch in both:
+        for style in range(6):
+            out.append(([("s", ch)], '"' + hex_escape(ord(ch), style) + '"'))
+    # every byte value as \xHH with upper-case digits and as \xhh, alone (0x80.. are non-ASCII characters: refused)
+    for c in range(256):
+        out.append(([("s", chr(c))], '/' + hex_escape(c, 1) + '/'))
+        out.append(([("s", chr(c))], '/' + hex_escape(c, 0) + '/'))
+    # three escaped characters; escapes next to plain text and next to <n>
+    for i in range(n):
+        t = "".join(rng.choice(both) for _ in range(rng.choice([1, 2, 3, 3, 4, 6])))
+        ch = [("s", t)]
+        if rng.random() < 0.4:
+            ch.insert(rng.randrange(2), ("n", rng.randrange(40)))
+        if rng.random() < 0.3:
+            ch.append(("s", "".join(rng.choice(both + "!\\/\"'\n\t") for _ in range(rng.randrange(1, 4)))))
+        out.append((ch, spell_chunks(ch, rng)))
+    out += [([("s", "JKL")], '"\\x4A\\x4B\\x4C"'), ([("s", ".")], '"\\x2E"'), ([("s", "jkl")], '"\\x6a\\x6B\\X6c"'),
+            ([("s", "A"), ("n", 39), ("s", "Z")], '"\\x41"<39.>"\\x5A"'), ([("s", "AB")], '"A\\\nB"'), ([("s", "A/B")], '/A\\/B/')]
+    return out
 
 
 def observe(r):
@@ -488,6 +561,19 @@ def explore(rep, br, tier, seed):
         descr.append(("dir", ch, o))
     rep.sample({"source": ".rad50 " + render_chunks(dcases[0]), "impl": observe(outs[0])})
     rep.sample({"source": ".rad50 " + render_chunks(dcases[1]), "impl": observe(outs[1])})
+    # 4b. the same kind of operands with their characters spelled through string escapes (the denoted text, hence the
+    # oracle, is unchanged), and the generated operands above respelled
+    ecases = escape_cases(rng, 300 if tier == "quick" else 3000)
+    ecases += [(ch, spell_chunks(ch, rng)) for ch in dcases[:(300 if tier == "quick" else 3000)]]
+    outs = impl.pmap("assemble", [asm(".rad50 " + src + "\n") for _, src in ecases], chunksize=32)
+    for (ch, src), r in zip(ecases, outs):
+        o = observe(r)
+        rep.add_eval()
+        rep.count("dir-escaped:" + o[0])
+        rep.nontrivial(("dir", src))
+        terms.append(dir_case(ch, o))
+        descr.append(("dir", ch, o, ".rad50 " + src + "\n"))
+    rep.sample({"source": ".rad50 " + ecases[-1][1], "denotes": ecases[-1][0], "impl": observe(outs[-1])})
     lcases = gen_lit_cases(rng, n // 2)
     for t in lcases:                      # the literal parser on its own: exact value, errors and extent, whatever follows
         o, consumed = lit_token(t)
@@ -571,8 +657,8 @@ def report_case(rep, d, code):
             rep.violate("refused:%s:U+%04X" % (kind, c), "a character of the alphabet (Spec) is refused", inp, impl="error", replay_kind="source")
         return
     if kind == "dir":
-        _, chunks, o = d
-        src = ".rad50 " + render_chunks(chunks) + "\n"
+        chunks, o = d[1], d[2]
+        src = d[3] if len(d) > 3 else ".rad50 " + render_chunks(chunks) + "\n"
         inp = {"files": [["t.mac", src]], "chunks": [[k, v] for k, v in chunks]}
         if code & 1:
             rep.disagree("Model.Rad50.rad50 vs '.rad50'", inp, impl=o)
